@@ -19,7 +19,8 @@ class C39(E1Prop):
     search_budget = {'quick': 100, 'thorough': 2000}
     level_text = ('Safety, after every step of the real scheduler / canceller loop bodies, worker reports, preemptions and cancellations on small committed batches: '
                   'a job in Running/Creating has an attempt row that is its current attempt, un-ended, on a live instance; terminal states are absorbing; a Running job '
-                  'falls back to Ready only when its current attempt was ended (no two live attempts that were both current). Liveness, after a fair run to quiescence '
+                  'falls back to Ready only when its current attempt was ended (no two live attempts that were both current); one actor step opens at most one '
+                  'attempt per job (the scheduler hands a job to one worker per pass). Liveness, after a fair run to quiescence '
                   '(every loop runs, every running job finishes): every committed job is terminal, always_run jobs did not end Cancelled, every batch and job group with '
                   'jobs is complete, no un-ended attempt remains on an active instance. The submission prefix is compared op by op with the Lean model BatchDB.')
     level_note = ('Partial: actor steps are whole loop bodies / whole transactions in scripted orders (real asyncio concurrency of the driver loops and HTTP to workers are '
